@@ -201,7 +201,7 @@ func tune(c *arpc.Client, s *arpc.Server) {
 	c.CallRetryBackoff = 100 * time.Millisecond
 }
 
-func compare(src *am.Machine, c *arpc.Client, shallow bool) string {
+func compareNow(src *am.Machine, c *arpc.Client, shallow bool) string {
 	nm := c.NetMach
 	for _, s := range c.VerifTracked() {
 		st, mt := src.Tick(s), nm.Tick(s)
@@ -216,6 +216,38 @@ func compare(src *am.Machine, c *arpc.Client, shallow bool) string {
 		}
 	}
 	return ""
+}
+
+// compare reports a difference between the source and the mirror only when it
+// survives: the quiet period that stabilize saw can be an artefact of a loaded
+// machine (a push written by the server and not yet forwarded, read or applied
+// because those goroutines were not scheduled). A difference counts when
+// nothing moved for 100 consecutive samples, 20 ms apart - no update processed
+// by the client, no tick of the mirror or of the source changed - and it is
+// still there; a lost update leaves the mirror stale for good, so nothing real
+// is lost by waiting.
+func compare(src *am.Machine, c *arpc.Client, shallow bool) string {
+	if compareNow(src, c, shallow) == "" {
+		return ""
+	}
+	sample := func() [4]uint64 {
+		h := am.VerifHookHits()
+		return [4]uint64{h["cli.update.accepted"], h["cli.update.rejected"], c.NetMach.Time(nil).Sum(nil), src.Time(nil).Sum(nil)}
+	}
+	last := sample()
+	quiet := 0
+	for i := 0; i < 1500 && quiet < 100; i++ {
+		time.Sleep(20 * time.Millisecond)
+		if compareNow(src, c, shallow) == "" {
+			return ""
+		}
+		if now := sample(); now != last {
+			last, quiet = now, 0
+		} else {
+			quiet++
+		}
+	}
+	return compareNow(src, c, shallow)
 }
 
 // stabilize waits until no further push can change the mirror. Returns ""
@@ -655,7 +687,7 @@ func runListenerRestart(res *core.CaseResult, c core.CaseDesc, cf cfg, r *rand.R
 		// whole push intervals pass on a quiet source
 		for i := 0; i < 12; i++ {
 			time.Sleep(interval)
-			if compare(src, p.C, cf.Shallow) == "" {
+			if compareNow(src, p.C, cf.Shallow) == "" {
 				return ""
 			}
 		}
@@ -798,7 +830,7 @@ func runCancelReply(res *core.CaseResult, c core.CaseDesc, cf cfg, r *rand.Rand,
 		// a first local change is pushed at once (the last push is long ago);
 		// wait until the mirror shows it, so that the push interval starts now
 		src.Add1("B", nil)
-		for i := 0; i < 2000 && compare(src, p.C, cf.Shallow) != ""; i++ {
+		for i := 0; i < 2000 && compareNow(src, p.C, cf.Shallow) != ""; i++ {
 			time.Sleep(time.Millisecond)
 		}
 		// further local change(s): throttled, not pushed before the interval is over
